@@ -227,6 +227,96 @@ fn main() {
                 }
             }
         }
+        "types" => {
+            // EXHAUSTIVE over the finite type tables: every leaf type x wrapper (plain, alias, fixed array, nested array, runtime
+            // array, nested struct, array of structs) x role (storage, uniform, private, workgroup, push constant, vertex input,
+            // vertex input + storage, entry result + uniform, entry result nested in storage)
+            let scalars = ["f32", "i32", "u32", "f64", "bool"];
+            let mut leaves: Vec<(String, &str, bool)> = vec![]; // (type, scalar, io-capable)
+            for sc in scalars {
+                leaves.push((sc.to_string(), sc, sc != "bool" && sc != "f64" || sc == "f64"));
+                for n in 2..=4 {
+                    leaves.push((format!("vec{n}<{sc}>"), sc, sc != "bool"));
+                }
+            }
+            for sc in ["f32", "f64"] {
+                for c in 2..=4 {
+                    for r in 2..=4 {
+                        leaves.push((format!("mat{c}x{r}<{sc}>"), sc, false));
+                    }
+                }
+            }
+            for sc in ["u32", "i32", "f32"] {
+                leaves.push((format!("atomic<{sc}>"), "atomic", false));
+            }
+            let wrappers = ["plain", "alias", "array3", "array2x3", "runtime", "nested", "structarray", "alias-array"];
+            // optional subsampling: `types <stride> <offset>` emits every stride-th case starting at offset
+            let stride: usize = args.get(2).and_then(|x| x.parse().ok()).unwrap_or(1).max(1);
+            let offset: usize = args.get(3).and_then(|x| x.parse().ok()).unwrap_or(0) % stride;
+            let mut k = 0usize;
+            for (leaf, sc, io) in &leaves {
+                let is_bool = *sc == "bool";
+                let is_atomic = *sc == "atomic";
+                for w in wrappers {
+                    let mut pre = String::new();
+                    let member_ty = match w {
+                        "plain" => leaf.clone(),
+                        "alias" => {
+                            pre.push_str(&format!("alias Al = {leaf};\n"));
+                            "Al".to_string()
+                        }
+                        "array3" => format!("array<{leaf}, 3>"),
+                        "array2x3" => format!("array<array<{leaf}, 2>, 3>"),
+                        "runtime" => format!("array<{leaf}>"),
+                        "nested" => {
+                            pre.push_str(&format!("struct Inner {{ x: {leaf}, y: f32 }}\n"));
+                            "Inner".to_string()
+                        }
+                        "structarray" => {
+                            pre.push_str(&format!("struct Inner {{ x: {leaf} }}\n"));
+                            "array<Inner, 2>".to_string()
+                        }
+                        _ => {
+                            pre.push_str(&format!("alias Al = {leaf};\nalias Arr = array<Al, 4>;\n"));
+                            "Arr".to_string()
+                        }
+                    };
+                    let body = format!("{pre}struct S {{ head: f32, m: {member_ty} }}\n");
+                    let mut roles: Vec<(&str, String)> = vec![];
+                    if !is_bool {
+                        let acc = if is_atomic { "read_write" } else if k % 2 == 0 { "read" } else { "read_write" };
+                        roles.push(("storage", format!("{body}@group(0) @binding(0) var<storage, {acc}> g: S;\n@compute @workgroup_size(1) fn main() {{ let h = g.head; }}\n")));
+                        if w != "runtime" && !is_atomic {
+                            roles.push(("uniform", format!("{body}@group(0) @binding(0) var<uniform> g: S;\n@fragment fn main() -> @location(0) vec4<f32> {{ return vec4<f32>(g.head); }}\n")));
+                            roles.push(("push", format!("{body}var<push_constant> g: S;\n@vertex fn main() -> @builtin(position) vec4<f32> {{ return vec4<f32>(g.head); }}\n")));
+                        }
+                    }
+                    if w != "runtime" {
+                        if !is_atomic {
+                            roles.push(("private", format!("{body}var<private> g: S;\n@compute @workgroup_size(1) fn main() {{ g.head = 1.0; }}\n")));
+                        }
+                        roles.push(("workgroup", format!("{body}var<workgroup> g: S;\n@compute @workgroup_size(1) fn main() {{ g.head = 1.0; }}\n")));
+                    }
+                    if *io && (w == "plain" || w == "alias") {
+                        let flat = if *sc == "f32" { "" } else { "@interpolate(flat) " };
+                        let io_s = format!("{pre}struct S {{ @location(1) head: f32, @location(0) {flat}m: {member_ty} }}\n");
+                        roles.push(("vertex", format!("{io_s}@vertex fn main(v: S) -> @builtin(position) vec4<f32> {{ return vec4<f32>(v.head); }}\n")));
+                        roles.push(("vertex+storage", format!("{io_s}@group(0) @binding(0) var<storage, read> g: array<S>;\n@vertex fn main(v: S) -> @builtin(position) vec4<f32> {{ return vec4<f32>(v.head + g[0].head); }}\n")));
+                        if *sc != "f64" {
+                            roles.push(("result+uniform", format!("{io_s}@group(0) @binding(0) var<uniform> g: S;\n@fragment fn main() -> S {{ return g; }}\n")));
+                            roles.push(("result-in-storage", format!("{io_s}struct Outer {{ a: f32, inner: S, arr: array<S, 2> }}\n@group(0) @binding(0) var<storage, read> g: Outer;\n@fragment fn main() -> S {{ return g.inner; }}\n")));
+                            roles.push(("vertex+result", format!("{io_s}@vertex fn vs(v: S) -> @builtin(position) vec4<f32> {{ return vec4<f32>(v.head); }}\n@fragment fn fs() -> S {{ var o: S; return o; }}\n")));
+                        }
+                    }
+                    for (role, src) in roles {
+                        if k % stride == offset {
+                            emit(&format!("types:{leaf}:{w}:{role}"), &src);
+                        }
+                        k += 1;
+                    }
+                }
+            }
+        }
         "big" => {
             // shaders whose generated module exceeds the 64 KiB pipe buffer: `count` shaders with n, n+7, .. bindings
             let n: usize = args[2].parse().unwrap();
